@@ -213,7 +213,13 @@ func (l *Loader) loadSingleInclude(
 	result *ResolvedJournal,
 ) []LoadError {
 	var errors []LoadError
-	limits := l.getLimits()
+	// The limits, the cache entry and the generation are read together: a file
+	// admitted under limits that SetLimits replaced meanwhile must not be cached.
+	l.mu.RLock()
+	limits := l.limits
+	cached, ok := l.cache[includePath]
+	generation := l.generation
+	l.mu.RUnlock()
 
 	if visited.stack[includePath] {
 		errors = append(errors, LoadError{
@@ -239,10 +245,6 @@ func (l *Loader) loadSingleInclude(
 		return errors
 	}
 
-	l.mu.RLock()
-	cached, ok := l.cache[includePath]
-	generation := l.generation
-	l.mu.RUnlock()
 	if ok {
 		// A cached file is only a cached parse: its own includes are still
 		// followed, so the result does not depend on what was loaded before.
